@@ -39,8 +39,8 @@ CONSTANTS
     PEgr,              \* read of up to 4 KiB
     PWstor, PIngr4k,   \* write: temp storage, ingress per 4 KiB
     PVerify,           \* verify sector
-    DevFreeAlias,      \* named deviation (known finding C09-free-sectors-alias): free swaps in place
-    DevReplDup         \* named deviation (known finding C15-replenish-duplicates): duplicates overshoot
+    DevFreeAlias,      \* named deviation (finding C09-free-sectors-alias, fixed in 6350cf0; self-test only): free swaps in place
+    DevReplDup         \* named deviation (open finding C15-replenish-duplicates; self-test only): duplicates overshoot
 
 VARIABLES
     rev,      \* latest committed revision of the contract
